@@ -173,6 +173,14 @@ def mutate_runs(tier, seed):
     return core_runs(tier, seed, profile="multi-serde-mutate")
 
 
+def res_runs(tier, seed):
+    return core_runs(tier, seed, profile="multi-res-serde")
+
+
+def all_runs(tier, seed):
+    return core_runs(tier, seed, profile="multi-res-serde-query")
+
+
 def core_runs(tier, seed, profile="multi"):
     if tier == "thorough":
         return [["core", "--family", "reg4", "--seed", str(seed), "--cases", "6000", "--ops", "60", "--profile", profile],
@@ -212,6 +220,18 @@ PROPS = {
     "C03": dict(runs=query_runs,
                 level="query model (filter recursion, bit-walk column selection, optional views, entry and sub-view queries, size_hint) with theorems in Props/C03.lean; a generated family of typed queries run on the real World after random histories and compared row-for-row with the model; size_hint checked against the true remaining count at every step",
                 trust=CORE_TRUST + "; the typed query family is finite (listed in evidence)", technique="Lean 4 proof over the query model + differential correspondence check on a generated typed query family"),
+    "C05": dict(runs=all_runs,
+                level="theorem: no modelled op sequence reaches an unchecked access with a violated precondition (Out.ub unreachable under Inv; Props/C05.lean); the real run is watched by a tracking global allocator (layout equality at dealloc/realloc, double free, everything obtained during library calls returned after the worlds are dropped), self-checking payloads (type confusion / stale reads), std's debug assertions on unchecked accesses, and crash attribution",
+                trust=CORE_TRUST + "; PARTIAL: the model has no bytes — allocation sizes, Vec growth, pointer provenance are observed on the real side only (allocator audit), not proved", technique="Lean 4 proof (no-UB over the protocol model) + differential correspondence check with allocator audit"),
+    "C10": dict(runs=core_runs,
+                level="clone / clone_from theorems on L1 (Props/C10.lean); pairs of worlds cloned into each other after random histories, then mutated / dropped independently; every world is tracked separately by the model and by the L0 spec, so any leak of one world's change into another shows as a disagreement",
+                trust=CORE_TRUST, technique="Lean 4 proof (clone preserves Inv and abs; fresh handles) + differential correspondence check on world pairs"),
+    "C15": dict(runs=res_runs,
+                level="resource theorems (Props/C15.lean: position lookup, views in any order, frame); generated view_resources orders/kinds, get_mut writes, interleaved with entity histories, clone, clone_from and serde round trips; resources compared after every op with the model and the L0 spec",
+                trust=CORE_TRUST, technique="Lean 4 proof (frame + permutation lemmas) + differential correspondence check on generated resource views"),
+    "C16": dict(runs=core_runs,
+                level="equality theorems (Props/C16.lean: reflexive, symmetric under Inv, sound w.r.t. abs); `==` evaluated in both directions on pairs of worlds built by different histories and compared with the model; L0 oracle: worlds that compare equal must hold the same map and resources, a == a, a == b iff b == a",
+                trust=CORE_TRUST, technique="Lean 4 proof (soundness/symmetry of eqWorld) + differential correspondence check with an L0 soundness oracle"),
     "C06": dict(runs=serde_runs,
                 level="token-level model of Serialize/Deserialize (both encodings) with round-trip theorems in Props/C06.lean; the real token stream of every round trip is deserialized by the real code and by the model, dumps compared, the copy then driven in lock-step with further ops; rejection of a reachable world's serialization is an oracle failure",
                 trust=CORE_TRUST + "; serde_assert 0.5 framing rules modelled from its source", technique="Lean 4 proof (round trip on the token model) + differential correspondence check on real token streams"),
